@@ -489,7 +489,10 @@ def assemble(unit, twin=False):
                 after = blocks.get("after")
                 label = (s.impl + "::" if s.impl else "") + s.name
                 meta = {"function": label, "file": r["file"], "line_start": r["line_start"], "line_end": r["line_end"],
-                        "loops": r["loops"], "closures": r["closures"], "rules": r.get("rules", {})}
+                        "loops": r["loops"], "closures": r["closures"], "rules": r.get("rules", {}),
+                        # an assumed callee keeps only signature + contract in this unit (its body is verified in the unit that owns it,
+                        # or it is listed as an unverified assumption): never counted as proved here
+                        "status": "assumed-contract" if s.opts.get("assume") else "verified-body"}
                 a.functions.append(meta)
                 chunks.append((text, "%s:%d" % (r["file"], r["line_start"]), meta))
     body = []
@@ -1013,6 +1016,8 @@ def check_property(pid, tier="quick", seed=0):
             "checker_cmd": " ; ".join(cmds) if cmds else "none",
             "trusted_base": sorted(set(trusted)),
             "functions_under_contract": functions,
+            "functions_verified": len([f for f in functions if f.get("status") == "verified-body"]),
+            "functions_assumed_contract": sorted(set(f["function"] for f in functions if f.get("status") == "assumed-contract")),
             "rules_applied": rules,
             "solver": solver_ms,
             "obligation_list": [{"unit": u, "obligation": t} for (u, t) in obligations],
